@@ -195,6 +195,8 @@ class Engine(object):
                 out.ghost = {k: fr.env[k] for k in ('$ycnt', '$yany', '$ylast')}
             if '$ypair' in fr.env:
                 out.ghost = {'$ypair': fr.env['$ypair']}
+            if '$yrow' in fr.env:
+                out.ghost = {'$yrow': fr.env['$yrow']}
             return out
         return ret
 
@@ -335,6 +337,8 @@ def b_list(interp, argv, kwv, fr):
     if not argv:
         return VList([])
     v = argv[0]
+    if v.kind == 'bag':
+        return v            # list(<generator>): the same elements, each once, in the generator's (unspecified) order
     items = interp.static_items(v)
     if items is not None:
         return VList(items)
@@ -453,6 +457,18 @@ def b_enumerate(interp, argv, kwv, fr):
     return seqs.enumerate_(interp, argv)
 
 
+def b_map(interp, argv, kwv, fr):
+    f, xs = argv[0], argv[1]
+    items = interp.static_items(xs)
+    if items is None or f.kind != 'callable':
+        raise Undecided('map() over %s' % xs.kind)
+    return VMapped(f.name, items)
+
+
+def b_make_str(interp, argv, kwv, fr):
+    return VOpaque(fresh('str', Obj), 'str')
+
+
 def b_abs(interp, argv, kwv, fr):
     v = argv[0]
     if v.kind == 'int':
@@ -464,7 +480,7 @@ BUILTINS = {
     'isinstance': b_isinstance, 'type': b_type, 'len': b_len, 'range': b_range, 'list': b_list,
     'iter': b_iter, 'int': b_int, 'max': b_max, 'min': b_min, 'sorted': b_sorted, 'sum': b_sum,
     'dict': b_dict, 'super': b_super, 'next': b_next, 'set': b_set, 'zip': b_zip,
-    'enumerate': b_enumerate, 'abs': b_abs, 'defaultdict': b_defaultdict,
+    'enumerate': b_enumerate, 'abs': b_abs, 'defaultdict': b_defaultdict, 'map': b_map, 'make_str': b_make_str,
 }
 
 
